@@ -1,6 +1,7 @@
 """C03 — the RVB cluster update preserves the thermal distribution (partial by nature)."""
+from checks import kern
 LEAN_TARGETS = ["QmcProps.C03", "drv_c03"]
-BINS = ["c03"]
+BINS = ["c03", "kern"]
 
 THEOREMS = [
     # (iv) pure helpers
@@ -80,4 +81,5 @@ def main(ck):
         ck.correspond("region", "drv_c03", [c for c in cases if c["input"].startswith("region ")])
         # the RVB step embedded in `timestep` (its own copies of the weight closures) vs the explicit decomposition
         ck.correspond("timestep-embedded-rvb", "drv_c03", ck.harness("c03", ["pipeline"]))
+        kern.run(ck, "rvb")   # exact one-step kernels of the real code on tiny systems: pi K = pi
     return ck.finish(RULE)
